@@ -173,5 +173,24 @@ def run(ctx):
                                 return "B-len1", "slice.len() + 1: a slice length is at most isize::MAX"
             return None, None
 
+        # a body that does not fit must fail as a whole: every hand-written Serialize impl propagates its serializer's errors
+        # (a swallowed error inside a nested list would let Response::serialize see Ok for an incomplete body)
+        from . import wire as W
+        from . import tables as T
+        for f in F.fns:
+            im = f.get("impl") or {}
+            if im.get("trait") == "serde_core::ser::Serialize" and f["name"] == "serialize" and im.get("impl_pv") == "user":
+                tyname = im["self_ty"].get("path") or im["self_ty"]["s"]
+                callees = {c.get("callee") for c, _, _ in T.ordered_calls(f["body"])}
+                if callees & {"serde_core::ser::Serializer::serialize_seq", "serde_core::ser::Serializer::collect_seq"}:
+                    se = W.seq_emitter(F, f)
+                    ctx.oblige("C17|nested-emitter|" + tyname, se["ok"], "hand-written sequence emitter %s: %s -- a failure inside it may not reach Response::serialize" % (tyname, se.get("why")), cfg=cfg, where=f["sp"])
+                elif callees & {"serde_core::ser::Serializer::serialize_map", "serde_core::ser::Serializer::serialize_struct"}:
+                    try:
+                        W.map_emitter_sym(F, f)
+                        okm, whym = True, ""
+                    except T.Unreadable as e:
+                        okm, whym = False, str(e)
+                    ctx.oblige("C17|nested-emitter|" + tyname, okm, "hand-written map emitter %s: %s" % (tyname, whym), cfg=cfg, where=f["sp"])
         nloc = OR.check_root(ctx, F, cfg, "C17", "ctap2::Response::serialize@usize:1024", local_rules, what="while encoding a response")
         ctx.floor("/repo instances reachable from Response::serialize", nloc, 25, cfg=cfg)
